@@ -42,6 +42,9 @@ class Ty:
                 return Sym(v.term, self)
             if isinstance(self, TOpt) and v.term.sort() == self.inner.sort():
                 return Sym(self.some(v.term), self)
+            if isinstance(v.ty, TOpt) and v.ty.inner.sort() == self.sort():
+                # an Optional used where its payload is needed (callers are under an `is not None` test)
+                return Sym(v.ty.val(v.term), self)
             raise TypeError("cannot lift %r to %s" % (v, self))
         return self._lift(v)
 
@@ -154,11 +157,13 @@ class TOpt(Ty):
         self.name = "Optional[%s]" % inner.name
         k = ("opt", inner.sort())
         if k not in _dt_cache:
-            d = z3.Datatype("Opt_" + _sort_name(inner.sort()))
-            d.declare("none")
-            d.declare("some", ("val", inner.sort()))
+            n = _sort_name(inner.sort())
+            d = z3.Datatype("Opt_" + n)
+            d.declare("none_" + n)
+            d.declare("some_" + n, ("val_" + n, inner.sort()))
             _dt_cache[k] = d.create()
         self.dt = _dt_cache[k]
+        self._n = _sort_name(inner.sort())
 
     def key(self):
         return (self.inner,)
@@ -167,21 +172,21 @@ class TOpt(Ty):
         return self.dt
 
     def none(self):
-        return self.dt.none
+        return getattr(self.dt, "none_" + self._n)
 
     def some(self, t):
-        return self.dt.some(t)
+        return getattr(self.dt, "some_" + self._n)(t)
 
     def is_none(self, t):
-        return self.dt.is_none(t)
+        return getattr(self.dt, "is_none_" + self._n)(t)
 
     def val(self, t):
-        return self.dt.val(t)
+        return getattr(self.dt, "val_" + self._n)(t)
 
     def _lift(self, v):
         if v is None:
-            return Sym(self.dt.none, self)
-        return Sym(self.dt.some(self.inner.lift(v).term), self)
+            return Sym(self.none(), self)
+        return Sym(self.some(self.inner.lift(v).term), self)
 
 
 class TSeq(Ty):
@@ -210,10 +215,12 @@ class TTup(Ty):
         self.name = "Tuple[%s]" % ",".join(e.name for e in elts)
         k = ("tup",) + tuple(e.sort() for e in elts)
         if k not in _dt_cache:
-            d = z3.Datatype("Tup_" + "_".join(_sort_name(e.sort()) for e in elts))
-            d.declare("mk", *[("f%d" % i, e.sort()) for i, e in enumerate(elts)])
+            n = "_".join(_sort_name(e.sort()) for e in elts)
+            d = z3.Datatype("Tup_" + n)
+            d.declare("mk_" + n, *[("f%d_%s" % (i, n), e.sort()) for i, e in enumerate(elts)])
             _dt_cache[k] = d.create()
         self.dt = _dt_cache[k]
+        self._n = "_".join(_sort_name(e.sort()) for e in elts)
 
     def key(self):
         return self.elts
@@ -222,10 +229,10 @@ class TTup(Ty):
         return self.dt
 
     def mk(self, *terms):
-        return self.dt.mk(*terms)
+        return getattr(self.dt, "mk_" + self._n)(*terms)
 
     def get(self, t, i):
-        return getattr(self.dt, "f%d" % i)(t)
+        return getattr(self.dt, "f%d_%s" % (i, self._n))(t)
 
     def _lift(self, v):
         if isinstance(v, tuple) and len(v) == len(self.elts):
@@ -242,7 +249,7 @@ class TRec(Ty):
         k = ("rec", name) + tuple((f, t.sort()) for f, t in fields.items())
         if k not in _dt_cache:
             d = z3.Datatype("Rec_" + name)
-            d.declare("mk", *[(f, t.sort()) for f, t in fields.items()])
+            d.declare("mk_" + name, *[(name + "_" + f, t.sort()) for f, t in fields.items()])
             _dt_cache[k] = d.create()
         self.dt = _dt_cache[k]
 
@@ -253,10 +260,10 @@ class TRec(Ty):
         return self.dt
 
     def mk(self, **kw):
-        return self.dt.mk(*[self.fields[f].lift(kw[f]).term for f in self.fields])
+        return getattr(self.dt, "mk_" + self.name)(*[self.fields[f].lift(kw[f]).term for f in self.fields])
 
     def get(self, t, f):
-        return Sym(getattr(self.dt, f)(t), self.fields[f])
+        return Sym(getattr(self.dt, self.name + "_" + f)(t), self.fields[f])
 
 
 class TEnum(Ty):
